@@ -42,8 +42,20 @@ def is_sender_test(node):
 
 def hex_format_width(node):
     """bytes produced by unhexlify(f"{X:0Nx}") / unhexlify("%0Nx" % X): returns (N // 2, X) or None"""
-    if isinstance(node, ast.Call) and (dotted(node.func) or "").split(".")[-1] == "unhexlify" and len(node.args) == 1:
+    if isinstance(node, ast.Call) and isinstance(node.func, ast.Attribute) and node.func.attr == "to_bytes" and node.args:
+        # X.to_bytes(N, "big")
+        order = node.args[1] if len(node.args) > 1 else next((k.value for k in node.keywords if k.arg == "byteorder"), None)
+        n = eval_int(node.args[0])
+        if n is not None and order is not None and const(order) == "big":
+            return n, node.func.value
+    if isinstance(node, ast.Call) and ((dotted(node.func) or "").split(".")[-1] == "unhexlify" or dotted(node.func) == "bytes.fromhex") \
+            and len(node.args) == 1:
         a = node.args[0]
+        if isinstance(a, ast.Call) and isinstance(a.func, ast.Attribute) and a.func.attr == "format" and len(a.args) == 1 \
+                and isinstance(const(a.func.value), str):
+            s = const(a.func.value)
+            if s.startswith("{:0") and s.endswith("x}") and s[3:-2].isdigit() and int(s[3:-2]) % 2 == 0:
+                return int(s[3:-2]) // 2, a.args[0]
         if isinstance(a, ast.JoinedStr) and len(a.values) == 1 and isinstance(a.values[0], ast.FormattedValue):
             fv = a.values[0]
             spec = fv.format_spec
@@ -59,11 +71,18 @@ def hex_format_width(node):
 
 
 def hex_int_of(node):
-    """int(hexlify(X), 16) -> X else None (big-endian unsigned parse)"""
+    """big-endian unsigned parse of the bytes X:  int(hexlify(X), 16), int(X.hex(), 16), int.from_bytes(X, "big")  -> X else None"""
     if isinstance(node, ast.Call) and dotted(node.func) == "int" and len(node.args) == 2 and const(node.args[1]) == 16:
         h = node.args[0]
         if isinstance(h, ast.Call) and (dotted(h.func) or "").split(".")[-1] == "hexlify" and len(h.args) == 1:
             return h.args[0]
+        if isinstance(h, ast.Call) and isinstance(h.func, ast.Attribute) and h.func.attr == "hex" and not h.args:
+            return h.func.value
+    if isinstance(node, ast.Call) and dotted(node.func) == "int.from_bytes" and node.args:
+        order = node.args[1] if len(node.args) > 1 else next((k.value for k in node.keywords if k.arg == "byteorder"), None)
+        signed = next((k.value for k in node.keywords if k.arg == "signed"), None)
+        if order is not None and const(order) == "big" and (signed is None or const(signed) is False):
+            return node.args[0]
     return None
 
 
